@@ -1992,8 +1992,6 @@ class _operator(object):
         if r is None:
             assert self.unary
             return self.impl(l)
-        if self.unsigned:
-            l.sf = r.sf = False
         return self.impl(l, r)
 
     def __mul__(self, op):
